@@ -194,7 +194,7 @@ let runes_of_dot (s : string) =
 let fields l = String.split_on_char ' ' l
 let pr_dot w = List.iteri (fun i r -> if i > 0 then pr "."; pr "%d" (int_of_n r)) w
 
-let load_tok_tables dir uefile =
+let load_tok_parts dir uefile =
   let pairs f = List.filter_map (fun l -> match List.filter (fun x -> x <> "") (fields l) with
       | [a; b] -> Some (n_of_int (int_of_string a), n_of_int (int_of_string b)) | _ -> None) (read_lines (Filename.concat dir f)) in
   let lower = List.filter_map (fun l -> match fields l with
@@ -208,7 +208,17 @@ let load_tok_tables dir uefile =
       | [a; b] -> Some (runes_of_dot a, runes_of_dot b) | [a] -> Some (runes_of_dot a, []) | _ -> None) (read_lines path) in
   let iw = wordpairs (Filename.concat dir "interchangeable") in
   let ue = if uefile = "" then [] else wordpairs uefile in
-  TokTables.mk_tables (pairs "unicode.letters") (pairs "unicode.digits") (pairs "unicode.spaces") lower pm markers iw ue
+  (pairs "unicode.letters", pairs "unicode.digits", pairs "unicode.spaces", lower, pm, markers, iw, ue)
+
+let load_tok_tables dir uefile =
+  let (l, d, s, lower, pm, markers, iw, ue) = load_tok_parts dir uefile in
+  TokTables.mk_tables l d s lower pm markers iw ue
+
+(* the hypothesis of NormTables.norm_tables_wf_ok (=> NormProof.tables_ok) on the dumped tables *)
+let run_normwf dir uefile =
+  let (l, d, s, lower, pm, markers, iw, ue) = load_tok_parts dir uefile in
+  let b = NormTables.tables_bound l d s lower pm in
+  print_endline (if NormTables.norm_tables_wf b l d s lower pm markers iw ue then "true" else "false")
 
 let pr_doc (d : Tok.doc) =
   List.iteri (fun i (w, l) -> if i > 0 then pr " "; pr "%d:" (int_of_n l); pr_dot w) d.Tok.d_toks;
@@ -464,6 +474,7 @@ let () =
   | [| _; "tok1"; dir; v |] -> run_tok1 dir (v = "fixed")
   | [| _; "ranges" |] -> run_ranges ()
   | [| _; "tokwf"; dir |] -> run_tokwf dir
+  | [| _; "normwf"; dir; uefile |] -> run_normwf dir uefile
   | [| _; "normhyp"; dir; uefile |] -> run_normhyp dir uefile
   | [| _; "normalize"; dir; "amps" |] -> run_normalize dir "amps" ""
   | [| _; "normalize"; dir; "run"; uefile |] -> run_normalize dir "run" uefile
